@@ -6,7 +6,8 @@ Documented rules only:
                         *own* mapping; if nothing is current it becomes current (one on_current)
   remove(id)            rejected iff unknown; removing the current one selects the first remaining system or none
                         (one on_current), removing another one notifies nobody
-  set_current(id|None)  one on_current per call (None is announced as the null system, id None)
+  set_current(id|None)  one on_current per change (None is announced as the null system, id None); re-selecting
+                        the current system may be announced once more or not at all
   set_template(mapping) rejected iff some registered system does not cover it
   set_default(id,c,u) / remove_category(id,c)
                         change that system's mapping; one on_unit_changed(c, u|None) iff that system is current
@@ -48,8 +49,10 @@ class Model:
         return "ok"
 
     def set_current(self, id):
+        # selecting the system that already is current changes nothing: announcing it again is what the code
+        # does today, not announcing it would satisfy "notified exactly for changes" just as well -> optional
+        self.log.append(("cur?" if self.current == id else "cur", id))
         self.current = id
-        self.log.append(("cur", id))
         return "ok"
 
     def set_template(self, mapping):
@@ -70,6 +73,19 @@ class Model:
             if self.current == id:
                 self.log.append(("unit", cat, None))
         return "ok"
+
+    def log_matches(self, observed):
+        """observed callback log vs the model's, where ("cur?", id) entries are optional."""
+        i = 0
+        for kind, *rest in self.log:
+            if kind == "cur?":
+                if i < len(observed) and tuple(observed[i]) == ("cur",) + tuple(rest):
+                    i += 1
+                continue
+            if i >= len(observed) or tuple(observed[i]) != (kind,) + tuple(rest):
+                return False
+            i += 1
+        return i == len(observed)
 
     def default_unit(self, cat):
         if self.current is None:
